@@ -494,6 +494,11 @@ def _coll_oracle(interp, env, f, args, t, bb, path):
         if k == "alloc::vec::Vec::push":
             view_set(interp, v0, items + [load(interp, env, args[1]) if isinstance(args[1], Ref) else args[1]])
             return unit
+        if k == "alloc::vec::Vec::split_off" and len(args) == 2 and isinstance(args[1], int) and not isinstance(args[1], bool):
+            if args[1] > len(items):
+                return "DIVERGE"          # `at > len` panics
+            view_set(interp, v0, items[:args[1]])
+            return new_vec(interp, items[args[1]:])
         if k == "alloc::vec::Vec::pop":
             if items:
                 view_set(interp, v0, items[:-1])
@@ -820,6 +825,35 @@ def _coll_oracle(interp, env, f, args, t, bb, path):
             out.append(cur.fields[0])
             tmp = new_vec(interp, [cur.fields[0]])
             cur = _call1(interp, args[1], [HRef(tmp.vid, 0)])
+            if cur is None:
+                return TOP
+        # no end within the bound: an unbounded generator - only a bounding adapter (`take_while`, `take`) gives it items
+        return Agg("successors", None, None, [args[0], args[1]])
+    if isinstance(v0, Agg) and v0.kind == "successors" and nm in ("take_while", "take") and len(args) == 2:
+        out = []
+        cur = v0.fields[0]
+        for _ in range(512):
+            cur = load(interp, env, cur) if isinstance(cur, Ref) else cur
+            if not (isinstance(cur, Agg) and cur.name == "core::option::Option"):
+                return TOP
+            if cur.variant == "None":
+                return It(out)
+            x = cur.fields[0]
+            if nm == "take":
+                if not (isinstance(args[1], int) and not isinstance(args[1], bool)):
+                    return TOP
+                if len(out) >= args[1]:
+                    return It(out)
+            else:
+                tmp0 = new_vec(interp, [x])
+                keep = _call1(interp, args[1], [HRef(tmp0.vid, 0)])
+                if not isinstance(keep, bool):
+                    return TOP
+                if not keep:
+                    return It(out)
+            out.append(x)
+            tmp = new_vec(interp, [x])
+            cur = _call1(interp, v0.fields[1], [HRef(tmp.vid, 0)])
             if cur is None:
                 return TOP
         return TOP
